@@ -126,6 +126,15 @@ func bitsToBig(b []bool) *big.Int {
 	return v
 }
 
+// negRep returns v - 2^n when bit n-1 of v is set (the negative number with the same low n
+// bits in two's complement), v otherwise.
+func negRep(v *big.Int, n int) *big.Int {
+	if n == 0 || v.Bit(n-1) == 0 {
+		return v
+	}
+	return new(big.Int).Sub(v, new(big.Int).Lsh(big.NewInt(1), uint(n)))
+}
+
 func bigsSX(v []*big.Int) SX {
 	l := make([]SX, len(v))
 	for i, x := range v {
@@ -176,6 +185,9 @@ var c02Programs = []string{
 	"package main\nfunc main(a bool, b uint1) (bool, uint1, bool) {\n\treturn a && b == 1, b, !a\n}\n",
 	"package main\nfunc main(a, b uint6) (uint6, uint6, uint6) {\n\treturn a * b, a ^ b, a & b\n}\n",
 	"package main\nfunc main(a uint9, b uint4) uint9 {\n\treturn a >> 2 | uint9(b)\n}\n",
+	// outputs wider than a machine word that are not the last output (IO.Split)
+	"package main\nfunc main(a, b uint64) (uint128, bool, uint70) {\n\treturn uint128(a)<<64 | uint128(b), a > b, uint70(a) + uint70(b)\n}\n",
+	"package main\nfunc main(a, b int32) (int65, int32) {\n\treturn int65(a) - int65(b), a + b\n}\n",
 }
 
 func compileC02(idx int) (*circuit.Circuit, error) {
@@ -251,7 +263,15 @@ func runC02(c *Ctx) error {
 		}
 		frag := frags[(i/len(otKinds))%len(frags)]
 		grand := &blockLog{r: r.Fork()}
-		res := runSession(circ, bitsToBig(x), bitsToBig(y), grand, kind.mk(r.Fork()), kind.mk(r.Fork()),
+		gIn, eIn := bitsToBig(x), bitsToBig(y)
+		if i%4 == 2 {
+			// the same bits given as a NEGATIVE big.Int (what IOArg.Parse returns for a negative
+			// decimal such as "-5" of a single intN argument): every consumer must read it with
+			// Bit(i), i.e. in two's complement over the argument's width
+			gIn, eIn = negRep(gIn, n0), negRep(eIn, n1)
+			c.Hist("inputs:negative-big-int-representation")
+		}
+		res := runSession(circ, gIn, eIn, grand, kind.mk(r.Fork()), kind.mk(r.Fork()),
 			frag, r.Fork(), nil, 60*time.Second)
 		c02Live(c, circ, x, y, kind, r.Fork()) // flush-discipline correspondence (c02live.go)
 		xy := append(append([]bool(nil), x...), y...)
